@@ -22,10 +22,13 @@ Proof.
   destruct (f x); cbn [filter andb]; [destruct (g x)|]; rewrite IH; reflexivity.
 Qed.
 
+Lemma eval_S_bin f r o a b : eval (S f) r (EBin o a b) = eval_bop o (eval f r a) (eval f r b).
+Proof. reflexivity. Qed.
+
 Lemma ev_and r a b : depth a < 50 -> depth b < 50 -> ev r (EBin And a b) = eval_bop And (ev r a) (ev r b).
 Proof.
-  intros Ha Hb. unfold ev. change (eval 50 r (EBin And a b)) with (eval_bop And (eval 49 r a) (eval 49 r b)).
-  rewrite (eval_fuel_irrelevant 49 50 a) by lia. rewrite (eval_fuel_irrelevant 49 50 b) by lia. reflexivity.
+  intros Ha Hb. unfold ev. rewrite (eval_S_bin 49 r And a b).
+  rewrite (eval_fuel_irrelevant 49 50 a r) by lia. rewrite (eval_fuel_irrelevant 49 50 b r) by lia. reflexivity.
 Qed.
 
 Theorem filter_split : forall a b l, depth a < 50 -> depth b < 50 ->
@@ -46,7 +49,7 @@ Proof. intro l. cbn [apply fold_left]. apply map_id. Qed.
 Theorem filter_true_id : forall l, apply (TFilter (ELit (VInt 1))) l = l.
 Proof.
   intro l. cbn [apply]. induction l as [|r t IH]; [reflexivity|]. cbn [filter].
-  change (is_true (ev r (ELit (VInt 1)))) with true. cbn iota. rewrite IH. reflexivity.
+  assert (E : is_true (ev r (ELit (VInt 1))) = true) by reflexivity. rewrite E, IH. reflexivity.
 Qed.
 
 Theorem take_open_id : forall l, apply (TTake (Some 1%Z) None) l = l /\ apply (TTake None None) l = l.
